@@ -73,6 +73,8 @@ def run_suite(ctx, pid, which, n_quick, n_thorough):
             res.dist['op:' + (op[0] if op[0] != 'call' else 'call-' + op[1])] += 1
 
     for h in range(n + len(fixed)):
+        if len(runners) >= 8000:
+            flush(res, runners, which)
         cd = h >= len(fixed) and rng.random() < 0.08
         dd = h >= len(fixed) and rng.random() < 0.08
         kw = dict(connect_disconnects=cd, disc_raises=(h % 5 == 0), disconnect_disconnects=dd)
@@ -107,20 +109,28 @@ def run_suite(ctx, pid, which, n_quick, n_thorough):
             except Exception as e:
                 res.errors.append('history crashed the harness on %s: %s %s' % (kind, type(e).__name__, str(e)[:300]))
             judge(r, kind, cd, dd, tag)
+    flush(res, runners, which)
+    return res
+
+
+def flush(res, runners, which):
+    """compare what has been run so far with the model and forget it (bounds the memory of the thorough tier)"""
+    if not runners:
+        return
     bad, errs = chist.check(runners)
     res.errors += errs
     for b in bad[:20]:
         r = runners[b]
-        res.mismatches.append(dict(suite='client-history', case=dict(client=r.kind, connect_disconnects=r.connect_disconnects, disconnect_disconnects=r.disconnect_disconnects, ops=r.log), impl=r.outs,
-                                   model=chist.explain(r) if len(res.mismatches) < 2 else '(not shown)'))
-    res.traces = len(runners)
+        if len(res.mismatches) < 20:
+            res.mismatches.append(dict(suite='client-history', case=dict(client=r.kind, connect_disconnects=r.connect_disconnects, disconnect_disconnects=r.disconnect_disconnects, ops=r.log), impl=r.outs,
+                                       model=chist.explain(r) if len(res.mismatches) < 2 else '(not shown)'))
+    res.traces += len(runners)
     if 'c08' in which:
         imp, errs2 = chist.impolite(runners)
         res.errors += errs2
-        res.notes.append('%d of %d histories satisfy the hypothesis of c08_lifecycle_alternates (no connect() while another one waits for its handshake)' % (len(runners) - len(imp), len(runners)))
         res.dist['hypothesis-of-the-theorem:holds'] += len(runners) - len(imp)
         res.dist['hypothesis-of-the-theorem:fails'] += len(imp)
-    return res
+    del runners[:]
 
 
 def run(ctx):
